@@ -37,10 +37,9 @@ TABLE = {
         "assumptions": ["copy.copy is a shallow copy; DBModel.natural_join_to_near_sql is a function of the node it receives"],
     },
     "C26": {
-        "mods": ["contracts.c06_builders", "contracts.c26_ctors"],
+        "mods": ["contracts.c06_builders"], "groups_extra": [(["contracts.c26_ctors"], ["NaturalJoinNode.__init__", "SelectColumnsNode.__init__", "DropColumnsNode.__init__", "OrderRowsNode.__init__"])],
         "keys": ["ViewRepresentation.is_trivial_when_intermediate_", "OrderRowsNode.is_trivial_when_intermediate_"] + ["ViewRepresentation." + b for b in
-                 ("natural_join", "concat_rows", "select_rows_parsed_", "drop_columns", "map_columns", "rename_columns", "order_rows", "convert_records", "select_columns", "project_parsed_")]
-                + ["NaturalJoinNode.__init__", "SelectColumnsNode.__init__", "DropColumnsNode.__init__", "OrderRowsNode.__init__"],
+                 ("natural_join", "concat_rows", "select_rows_parsed_", "drop_columns", "map_columns", "rename_columns", "order_rows", "convert_records", "select_columns", "project_parsed_")],
         "explanation": ("hybrid: PROVED (pyvc) -- (i) four constructors (NaturalJoinNode, SelectColumnsNode, DropColumnsNode, OrderRowsNode): accepted => every documented rule holds "
                         "(join keys exist on both sides, requested common-column check passes, only known columns, reverse within order columns) and rejected with the rule's exception kind "
                         "=> some rule is violated; (ii) the part of the property that concerns simplifiable prefixes: every builder hands ALL its arguments (join-key check flag included) "
@@ -82,6 +81,8 @@ def attach(rep, tier, seed):
     if not cfg or rep.obligations:
         return
     run_proofs(rep, cfg["mods"], cfg["keys"], cfg.get("replays"))
+    for (mods, keys) in cfg.get("groups_extra", []):  # separate registries: e.g. verified constructors vs their call-site abstraction
+        run_proofs(rep, mods, keys)
     if cfg.get("explanation"):
         rep.explanation = cfg["explanation"]
     rep.assumptions += cfg.get("assumptions", [])
